@@ -2,6 +2,7 @@ import PV.Model.Ops
 import PV.Model.Eval
 import PV.Proofs.OpsSound
 import PV.Proofs.OpsRing
+import PV.Proofs.OpsTable
 /-
   C03 — property theorems.
 
@@ -17,6 +18,15 @@ import PV.Proofs.OpsRing
 
   Three shortcuts are WRONG and stay visible below as `*_cex` theorems:
     x // 1 → x,  x % 1 → 0   (x = 1/2),      0 ** x → 0   (x = 0).
+
+  Section 6 ties `Ops.bin` / `Ops.un` to the SOURCE: extract/operators.py reads every dunder of
+  `Expression` / `Sum` / `Product`, the `__bool__` of every node class, the operand predicates,
+  `quotient` and the two flatteners from
+  the live pymbolic/primitives.py into the plain-data table `PV.Generated.c03Table`
+  (lean/PV/Generated/Operators.lean, rewritten on every run), `opByTable` interprets such tables
+  without knowing their content, and `ops_eq_table_current` proves that the hand-written model is
+  that interpreter on the regenerated table.  An edit of a guard, a neutral-element test, an
+  operand order or a constructor in the source changes the table and breaks these obligations.
 -/
 namespace PV.C03
 open PV
@@ -386,5 +396,146 @@ would be visible in a non-commutative ring. -/
 theorem no_reorder {K : Type u} [Ring K] (ρ : String → K) (p : OpProg) (t : Expr) (k : K) :
     p.build = .ok t → plainRing ρ p = some k → evalRing ρ t = some k :=
   PV.no_reorder ρ p t k
+
+/-! ## 6. The model is what the current source says (T-gen) -/
+
+open PV.Generated in
+/-- **The hand-written binary-operator model is the regenerated table.**  For every operator and
+ALL operands, `Ops.bin` (what every `*_sound` theorem above speaks about) equals the generic table
+interpreter `opByTable` run on `c03Table`, the decision trees extract/operators.py read from the
+current source of `Expression.__add__ … __rxor__`, `Sum.__add__/__radd__/__sub__`,
+`Product.__mul__/__rmul__`, `quotient` and the four operand predicates. -/
+theorem ops_eq_table_current (o : PyBinOp) (a b : Expr) :
+    Ops.bin o a b = opByTable c03Table o a b := c03_bin_eq_table o a b
+
+open PV.Generated in
+/-- `-e`, `+e`, `~e`: `Ops.un` equals the table interpreter on the regenerated
+`__neg__` (= `-1*self`, through `__rmul__` of the operand's class), `__pos__`, `__invert__`. -/
+theorem un_eq_table_current (o : PyUnOp) (e : Expr) :
+    Ops.un o e = unByTable c03Table o e := c03_un_eq_table o e
+
+open PV.Generated in
+/-- the operand predicates of the model are the regenerated formulas over the run-time values of
+`VALID_CONSTANT_CLASSES`, `_BOOL_CLASSES`, `VALID_OPERANDS` -/
+theorem preds_eq_table_current (e : Expr) :
+    c03PredEval c03Preds c03PredFuel .isConstant e = e.isConstant ∧
+    c03PredEval c03Preds c03PredFuel .isNumber e = e.isNumber ∧
+    c03PredEval c03Preds c03PredFuel .isValidOperand e = e.isValidOperand ∧
+    c03PredEval c03Preds c03PredFuel .isArith e = e.isArith :=
+  ⟨c03_isConstant e, c03_isNumber e, c03_isValidOperand e, c03_isArith e⟩
+
+open PV.Generated in
+/-- truthiness, which every zero shortcut (`is_zero(other)`, `if self:`, `not other`) rests on:
+`Expr.truthy` is `bool(e)` as the `__bool__` methods of the CURRENT source define it — for every
+node class the method CPython ends up calling along the MRO (`Sum`: by number of children,
+`Product`: no zero child, `QuotientBase`: the numerator, everything else: always true), read into
+`c03Preds.truth`. -/
+theorem truthy_eq_table_current (e : Expr) : c03Truthy c03Preds.truth e = e.truthy :=
+  c03_truthy e
+
+open PV.Generated in
+/-- whole operator programs: `OpProg.build` is the program run with every operator application
+answered by the regenerated table -/
+theorem build_eq_table_current (p : OpProg) : p.build = p.c03BuildByTable c03Table :=
+  c03_build_eq_table p
+
+open PV.Generated in
+/-- `flattened_sum` / `flattened_product`: the hand-written loops are the generic loop
+`c03Flatten` run on the records read from the source (zero test `continue` / `return 0`, the
+`is_zero(item - 1)` skip, the flattened class, the empty result) -/
+theorem flatten_eq_table_current (terms : List Expr) :
+    flattenedSum terms = c03Flatten c03Preds c03FlatSum terms ∧
+    flattenedProduct terms = c03Flatten c03Preds c03FlatProduct terms :=
+  ⟨c03_flattenedSum_eq terms, c03_flattenedProduct_eq terms⟩
+
+/-- The table language has ONE abbreviation: the test `is_zero(x - 1)` is the primitive `isOne`.
+It is what the subtraction of the model gives: for a node `e` the tree built for `e - 1` is never
+zero (and `Expr.isOne e = false`) … -/
+theorem is_one_is_sub_one_zero_node (e r : Expr) (he : e.isNode = true)
+    (h : Ops.bin .sub e one = .ok r) : r.isZero = e.isOne := c03_sub_one_node e r he h
+
+/-- … and for an int / bool constant `c`, plain `c - 1` is zero exactly when `Const.isOne c`. -/
+theorem is_one_is_sub_one_zero_const (c c' : Const)
+    (h : constBin .sub c (.int 1) = .ok (.const c')) :
+    (Expr.const c').isZero = (Expr.const c).isOne := c03_sub_one_const c c' h
+
+/-- positional constructor parameters of the node classes the dunder bodies build, as the
+dataclasses of the current source declare them (so `FloorDiv(other, self)` puts `other` in the
+numerator, `Power(other, self)` in the base, …) -/
+theorem ctor_fields_current : PV.Generated.c03CtorFields = [
+    ("BitwiseAnd", ["children"]), ("BitwiseNot", ["child"]), ("BitwiseOr", ["children"]),
+    ("BitwiseXor", ["children"]), ("FloorDiv", ["numerator", "denominator"]),
+    ("LeftShift", ["shiftee", "shift"]), ("Power", ["base", "exponent"]),
+    ("Product", ["children"]), ("Quotient", ["numerator", "denominator"]),
+    ("Remainder", ["numerator", "denominator"]), ("RightShift", ["shiftee", "shift"]),
+    ("Sum", ["children"])] := rfl
+
+open PV.Generated in
+/-- soundness stated directly on the regenerated table: under the side condition, the tree the
+CURRENT SOURCE builds (as read into `c03Table`) refines the plain value -/
+theorem table_sound_current (o : PyBinOp) (a b t : Expr) (va vb v : Value)
+    (h : opByTable c03Table o a b = .ok t) (ha : den env a = .ok va) (hb : den env b = .ok vb)
+    (hv : o.onValues va vb = .ok v) (hside : sideCond o a b va vb v = true) :
+    ∃ w, den env t = .ok w ∧ Refines w v :=
+  bin_sound (by rw [ops_eq_table_current]; exact h) ha hb hv hside
+
+open PV.Generated in
+/-- `program_sound` for programs run on the regenerated table -/
+theorem program_sound_current (env : Env) (p : OpProg) (t : Expr) (v : Value)
+    (hb : p.c03BuildByTable c03Table = .ok t) (hp : OpProg.plain env p = .ok v)
+    (hs : OpProg.sideOK env p = true) (hte : OpProg.treeExact env p = true)
+    (hv : (v.num?.isSome || v.isInexact) = true) :
+    ∃ w, den env t = .ok w ∧ w.pyEq v = true :=
+  program_sound env p t v (by rw [build_eq_table_current]; exact hb) hp hs hte hv
+
+/-! the interpreter really runs the regenerated bodies: shortcuts, reflected operands, guards -/
+section
+open PV.Generated
+/-- `x + 0 ↦ x` -/
+example : opByTable c03Table .add (.var "x") (.const (.int 0)) = .ok (.var "x") := rfl
+/-- `0 * x ↦ 0` -/
+example : opByTable c03Table .mul (.const (.int 0)) (.var "x") = .ok (.const (.int 0)) := rfl
+/-- `x // 1 ↦ x`, `x ** 0 ↦ 1` -/
+example : opByTable c03Table .floordiv (.var "x") (.const (.int 1)) = .ok (.var "x") := rfl
+example : opByTable c03Table .pow (.var "x") (.const (.int 0)) = .ok (.const (.int 1)) := rfl
+/-- reflected operands keep their order: `2 // x`, `2 % x`, `2 << x` -/
+example : opByTable c03Table .floordiv (.const (.int 2)) (.var "x")
+    = .ok (.bin .floordiv (.const (.int 2)) (.var "x")) := rfl
+example : opByTable c03Table .mod (.const (.int 2)) (.var "x")
+    = .ok (.bin .rem (.const (.int 2)) (.var "x")) := rfl
+example : opByTable c03Table .lshift (.const (.int 2)) (.var "x")
+    = .ok (.bin .lshift (.const (.int 2)) (.var "x")) := rfl
+/-- `x - y` goes through `__sub__ → __neg__ → __rmul__ → __add__` -/
+example : opByTable c03Table .sub (.var "x") (.var "y")
+    = .ok (.nary .sum [.var "x", .nary .prod [.const (.int (-1)), .var "y"]]) := rfl
+/-- flattening in `Sum.__add__` / `Product.__mul__` -/
+example : opByTable c03Table .add (.nary .sum [.var "x", .var "y"]) (.nary .sum [.var "z"])
+    = .ok (.nary .sum [.var "x", .var "y", .var "z"]) := rfl
+/-- `x + True` is refused (`is_arithmetic_expression`), `True + x` trips the `assert` -/
+example : opByTable c03Table .add (.var "x") (.const (.bool true)) = .error .typeError := rfl
+example : opByTable c03Table .add (.const (.bool true)) (.var "x") = .error .assertion := rfl
+/-- `x / 1 ↦ x` and `2 / x` through `quotient` -/
+example : opByTable c03Table .truediv (.var "x") (.const (.int 1)) = .ok (.var "x") := rfl
+example : opByTable c03Table .truediv (.const (.int 2)) (.var "x")
+    = .ok (.bin .quot (.const (.int 2)) (.var "x")) := rfl
+/-- `Product((x, 0))` is falsy by the regenerated `Product.__bool__`: `y + x*0`-style folds -/
+example : c03Truthy c03Preds.truth (.nary .prod [.var "x", .const (.int 0)]) = false := rfl
+example : opByTable c03Table .add (.var "y") (.nary .prod [.var "x", .const (.int 0)])
+    = .ok (.var "y") := rfl
+example : unByTable c03Table .neg (.var "x")
+    = .ok (.nary .prod [.const (.int (-1)), .var "x"]) := rfl
+example : c03Flatten c03Preds c03FlatProduct [.var "x", .const (.int 1), .nary .prod [.var "y", .var "z"]]
+    = .nary .prod [.var "x", .var "y", .var "z"] := rfl
+/-- a non-trivial instance of `table_sound_current`: `x // 1` at the int `x = 0` -/
+example : ∃ (a b t : Expr) (va vb v : Value),
+    opByTable c03Table .floordiv a b = .ok t ∧ den envZero a = .ok va ∧ den envZero b = .ok vb ∧
+    PyBinOp.onValues .floordiv va vb = .ok v ∧ sideCond .floordiv a b va vb v = true :=
+  ⟨.var "x", .const (.int 1), .var "x", .int 0, .int 1, .int 0, rfl, rfl, rfl, rfl, by decide⟩
+/-- `program_sound_current` applies to the demo program of section 4 -/
+example : demoProg.c03BuildByTable c03Table =
+    .ok (.nary .sum [.var "x", .nary .prod [.const (.int (-1)), .const (.int (-1)), .var "x"]]) := by
+  rw [← build_eq_table_current]; rfl
+end
+
 
 end PV.C03
